@@ -5,7 +5,9 @@
 (* events of the same child process).                                      *)
 (* One scenario = one fresh process: a real Client against a scripted TLS  *)
 (* server that runs scheme servers[k] for the k-th session.                *)
-(*   announce{k,scheme}  the digest in the k-th session's Settings frame   *)
+(*   announce{k,scheme,pad0}  the digest in the k-th session's Settings    *)
+(*                       frame, the padding length its preamble declared   *)
+(*   (was) announce: the digest in the k-th session's Settings frame       *)
 (*                       is that of `scheme` ("other" if unknown)          *)
 (*   served{k,ok}        the request on that session succeeded             *)
 (* The validator runs SchemePush!AfterSession itself.                      *)
@@ -16,11 +18,15 @@ Kinds == {"announce", "served", "end"}
 InitSt(e) == [cur |-> IF "consts" \in DOMAIN e THEN e.consts.client ELSE "D", servers |-> IF "consts" \in DOMAIN e THEN e.consts.servers ELSE <<>>, n |-> 0]
 Ok(s)      == [ok |-> TRUE, st |-> s, why |-> "", dev |-> "", site |-> ""]
 No(s, why) == [ok |-> FALSE, st |-> s, why |-> why, dev |-> "", site |-> ""]
+Line0(name) == CASE name = "S1" -> 17 [] name = "S2" -> 9 [] OTHER -> 30      \* the schemes of the harness; D: 0=30-30
 Apply(s, e) ==
     CASE e.ev = "announce" ->
             IF e.k # s.n + 1 \/ e.k > Len(s.servers) THEN No(s, "harness: sessions out of order")
             ELSE IF e.scheme # s.cur
                  THEN No(s, "a session opened after an adopted push does not announce the pushed scheme (it will be pushed again)")
+            \* packet 0 of the session (the preamble) is shaped by the scheme in force too: line 0 of D / S1 / S2
+            ELSE IF "pad0" \in DOMAIN e /\ e.pad0 # Line0(s.cur)
+                 THEN No(s, "a session opened after an adopted push announces the pushed scheme but its preamble carries the padding length of another scheme's line 0")
             ELSE Ok([s EXCEPT !.n = e.k, !.cur = AfterSession(s.cur, s.servers[e.k])])
       [] e.ev = "served" -> IF e.ok THEN Ok(s) ELSE No(s, "a session that received a scheme push (or an unparseable one) stopped serving requests")
       [] e.ev = "end" -> IF e.panics # 0 THEN No(s, "a task panicked")
